@@ -82,6 +82,19 @@ def class_cases(rng, n):
     out.append(lgrams.spec("dot-all", [lgrams.tok("NL", lit([0x0A])), lgrams.tok("ANY", anyc())]))
     out.append(lgrams.spec("cls-x-escape", [lgrams.tok("A", lit("A")), lgrams.tok("B", plus(cls(["b-c"])))]))
     out[-1]["lox_text"] = "@lexer\nA = '\\x41'\nB = [\\x62-\\x63]+\n\n@parser\n@start s = A\n"
+    # every short escape in first / middle / last position of a class (next to single characters, not ranges)
+    specials = [0x0A, 0x0D, 0x09, 0x5C, 0x2D]
+    for pos in (0, 1, 2):
+        rules = []
+        for k, sp in enumerate(specials):
+            items = ["+", "0"]
+            items.insert(pos, sp)
+            rules.append(lgrams.tok("P%d" % k, cat(cls(items), lit(str(k)))))
+            rules.append(lgrams.tok("N%d" % k, cat(cls(items, neg=True), lit(chr(ord("a") + k)))))
+        out.append(lgrams.spec("cls-escape-pos%d" % pos, rules))
+    out.append(lgrams.spec("cls-dash-spelled", [lgrams.tok("A", cat(cls(["a", 0x2D, "c"]), lit("1"))), lgrams.tok("B", cat(cls(["x", 0x2D, "z"]), lit("2"))),
+                                               lgrams.tok("C", cat(cls(["m", 0x2D, "k"]), lit("3")))]))
+    out[-1]["lox_text"] = "@lexer\nA = [a\\u002Dc] '1'\nB = [x\\x2Dz] '2'\nC = [m\\U0000002Dk] '3'\n\n@parser\n@start s = A\n"
     # escaped surrogates: no UTF-8 input contains them, so the class / literal can match nothing
     out.append(lgrams.spec("cls-surrogate", [lgrams.tok("S", cat(cls([[0xD800, 0xD800]]), lit("x"))), lgrams.tok("O", plus(cls(["a-z"])))]))
     out.append(lgrams.spec("lit-surrogate", [lgrams.tok("S", lit([0xDFFF, 0x78])), lgrams.tok("O", plus(cls(["a-z"])))]))
